@@ -135,6 +135,18 @@ func (c *Cluster) WriteBurst(node, nw int, park bool) []*WriteRec {
 	maxParked := 0
 	for i := 0; i < 600 && !allDone(); i++ {
 		k.Wait()
+		if c.OnBurstStep != nil {
+			// everything is at rest or parked: the entries of the writers that have returned
+			var acked []ipfslog.Entry
+			for _, w := range ws {
+				if k.IsDone(w.op) && w.op.Err == nil {
+					if o, ok := w.op.Val.(operation.Operation); ok && o != nil {
+						acked = append(acked, o.GetEntry())
+					}
+				}
+			}
+			c.OnBurstStep(node, acked)
+		}
 		ps := k.Parks()
 		if len(ps) > maxParked {
 			maxParked = len(ps)
